@@ -71,7 +71,7 @@ reg(Prop('C07', ph.gen_item_C07, ph.eval_C07, 1200, 8000, RULE_HISTORY, ASSUME_C
           'C07_ids_preserved', 'C07_idempotent', 'C07_noop', 'C07_params_monotone', 'C07_params_zero_inherits']))
 reg(Prop('C08', ph.gen_item_C08, ph.eval_C08, 1200, 8000,
          "pairs (compute loosely then prune strictly) vs (compute strictly) on the same seeded array; modes: min_npix only, "
-         "min_delta only, both; non-trivial = the prune removed a structure", ASSUME_COMPUTE, []))
+         "min_delta only, both; non-trivial = the prune removed a structure", ASSUME_COMPUTE, ['C08_counterexample_criterion', 'C08_ruleOrig_agrees_on_witness', 'C08_ruleOrig_eq_computeTime', 'C08_npix_same_test', 'C08_zero_inherits']))
 reg(Prop('C14', ph.gen_item_C14, ph.eval_C14, 800, 6000,
          "histories of 2-10 operations (cache-warming queries, prunes, Newick export, save/load in both formats, plotter "
          "construction) on a seeded computed dendrogram; after every step all observables are compared with the model "
@@ -92,7 +92,7 @@ reg(Prop('C10', pa.gen_item_C10, pa.eval_C10, 1500, 12000,
 reg(Prop('C13', pa.gen_item_C13, pa.eval_C13, 1500, 12000,
          "seeded value arrays x five input families x equivalent unit spellings x metadata values/units x output units; every third case is an "
          "error-table case (each way of omitting / mis-typing a required item, unsupported input, non-flux output); implementation vs Lean "
-         "model (exact rationals) and vs the textbook formula computed independently", ASSUME_ANALYSIS, []))
+         "model (exact rationals) and vs the textbook formula computed independently", ASSUME_ANALYSIS, ['C13_additive', 'C13_linear', 'C13_unit_invariant', 'C13_output_unit', 'C13_temp_factor', 'C13_ok_iff', 'C13_unsupported']))
 
 import props_invariance as pi  # noqa: E402
 
@@ -113,8 +113,45 @@ reg(Prop('C17', pi.gen_item_C17, pi.eval_C17, 800, 6000,
 reg(Prop('C20', pi.gen_item_C20, pi.eval_C20, 1000, 8000,
          "pairs of dendrograms: same call twice, different min_delta/min_npix, different user criteria, one pixel changed, NaN mask changed, "
          "saved-and-loaded copy, pruned copy, reshaped data, different min_value, non-dendrogram objects; both argument orders",
-         ASSUME_COMPUTE, []))
+         ASSUME_COMPUTE, ['C20_spec_iff', 'C20_canon_iff_same_partition', 'C20_symm', 'C20_refl', 'C20_impl_iff', 'C20_spec_implies_impl', 'C20_impl_ignores_structures', 'C20_fingerprint_weaker']))
 
 for _p in ('C10', 'C11', 'C12', 'C13'):
     if _p in PROPS:
         PROPS[_p].lib = 'ADPropsM'
+
+import props_io as pio  # noqa: E402
+
+ASSUME_IO = ASSUME_COMPUTE + ["astropy.io.fits / h5py store and return arrays, strings and scalars faithfully (container libraries are trusted)",
+                              "Matplotlib artists draw what they are given: the harness observes the arguments (segments, masks), not pixels"]
+reg(Prop('C09', pio.gen_item_C09, pio.eval_C09, 600, 5000,
+         "three streams: (1) seeded dendrograms (1-4 dims, float/int dtypes, NaNs, negative values, optionally pruned -> id gaps) saved and "
+         "loaded in FITS / HDF5, explicit or auto-detected format, str or Path, upper-case extensions, with / without WCS, compared field by "
+         "field and with the model's reload; (2) random ordered forests (multi-digit ids, negative / large / tiny heights) through the text "
+         "writer format and parse_newick, compared with the model's step-by-step parser and its reference parser; (3) file names x modes x "
+         "file signatures through the handler table, incl. unrecognisable targets", ASSUME_IO, ['C09_parseDescent_print', 'C09_parseImpl_print', 'C09_newick_roundtrip', 'C09_print_injective', 'C09_id_roundtrip', 'C09_fmt3_good', 'C09_regroup_correct', 'C09_identify_write', 'C09_identify_read', 'C09_identify_unique', 'C09_identify_explicit']))
+reg(Prop('C18', pio.gen_item_C18, pio.eval_C18, 600, 5000,
+         "seeded dendrograms (computed / pruned / loaded), default and custom sort keys (id table, negated peak, pixel count), reverse on/off, "
+         "a selected structure given as object / id / list with and without subtree, contour masks captured at Axes.contour; positions and "
+         "line segments compared with the model (exact rationals)", ASSUME_IO, ['C18_sorted_by_key', 'C18_leaf_positions', 'C18_subtree_contiguous', 'C18_branch_between', 'C18_lines_vertical', 'C18_lines_mapping', 'C18_lines_count']))
+
+reg(Prop('C11', pa.gen_item_C11, pa.eval_C11, 1200, 10000,
+         "seeded pixel sets in 3-D (all three vaxis) and 2-D, with / without spatial_scale and velocity_scale, linear WCS, metadata omissions "
+         "and mistypings; major/minor sigma (through sum and product of squares), v_rms, centroids, exact area vs the Lean model's exact "
+         "rationals; definitions (eigenvalues of the sky block, radius, ellipse area, position angle), units, scaling and vaxis "
+         "invariance evaluated directly on the implementation", ASSUME_ANALYSIS, ['C11_vaxis_invariant', 'C11_sigma_sq_nonneg', 'C11_eigenvalues_real', 'C11_embed', 'C11_embed_old_witness', 'C11_vrms_def', 'C11_scale_linear']))
+reg(Prop('C12', pa.gen_item_C12, pa.eval_C12, 500, 4000,
+         "seeded 2-D and 3-D dendrograms (optionally pruned -> id gaps; optionally a sub-list of structures), default or random field subsets, "
+         "verbose on/off; every row compared with the statistic of that structure alone (index arrays unwrapped by the Lean model of the "
+         "heuristic); periodic data re-computed under a cyclic shift: shape statistics of narrow structures unchanged, centroid moved by "
+         "the shift modulo the axis length", ASSUME_ANALYSIS, ['C12_wrap_noop_narrow', 'C12_wrap_cases', 'C12_wrap_period', 'C12_wrap_never_wider', 'C12_wrap_unwraps', 'C12_wrap_noop_one_side']))
+PROPS['C11'].lib = 'ADPropsM'
+PROPS['C12'].lib = 'ADPropsM'
+
+import props_viewer as pv  # noqa: E402
+
+reg(Prop('C19', pv.gen_item_C19, pv.eval_C19, 160, 1200,
+         "seeded 2-D and 3-D dendrograms (optionally pruned -> id gaps) opened in a head-less Agg viewer with a linked Scatter and 0-2 extra "
+         "registered callbacks; sequences of 2-6 synthetic events (pixel clicks incl. unowned pixels, line picks of 1-2 lines, lassos around "
+         "0-3 catalog rows, slice changes) over the three slots; after every event selections, subtree flags, highlighted lines, label text, "
+         "contour masks (captured at Axes.contour), highlighted scatter rows and the callback log are compared with the Lean hub model",
+         ASSUME_IO + ["rendering and real GUI event delivery are Matplotlib's: events are synthetic objects with the attributes the handlers read"], ['C19_click', 'C19_cleared', 'C19_slots_independent', 'C19_notify_once', 'C19_highlight_subtree', 'C19_lasso', 'C19_lasso_rows', 'C19_lasso_empty']))
